@@ -34,8 +34,9 @@ def harness(it, px, params):
         px.add(z3.And(m >= -MAX96, m <= MAX96))
         px.get_model()
         # (the first number is concrete: two bv2int ties on related symbolic integers make z3 give up)
-        first = [150, 7, -2000][pick_config(px, 'first', 3)]
-        api.guarded(it, it.call, 'value::Value::integer', [api.V_num(first, 0)])
+        # the first call succeeds (150, 7, -2000) or is rejected (1.5: not integral; 2^64-1: outside i64)
+        first, fs = [(150, 0), (7, 0), (-2000, 0), (15, 1), ((1 << 64) - 1, 0)][pick_config(px, 'first', 5)]
+        api.guarded(it, it.call, 'value::Value::integer', [api.V_num(first, fs)])
         o = api.as_result(api.guarded(it, it.call, 'value::Value::integer', [api.V_num(m, s1)]))
         want_ok = z3.And(m % p == 0, m / p >= -(1 << 63), m / p < (1 << 63))
         n = m / p
@@ -55,7 +56,7 @@ def harness(it, px, params):
         else:
             bad = ('C17|integer-after-integer|%s' % o.kind, 'integer() %s: %s' % (o.kind, o.detail), px.get_model())
         mm = (bad[2] if bad else None) or px.get_model()
-        rec['witness'] = {'m': str(mm.eval(m, model_completion=True).as_long()), 's': s1, 'first': str(first)}
+        rec['witness'] = {'m': str(mm.eval(m, model_completion=True).as_long()), 's': s1, 'first': str(first), 'first_s': fs}
         if bad:
             px.finding({'key': bad[0], 'desc': bad[1], 'kind': 'integer2', 'witness': rec['witness']})
         return rec
@@ -206,7 +207,7 @@ def native_check(ctx, f):
     """-> (scenario, confirmed, observations)"""
     if f['kind'] == 'integer2':
         w = f['witness']
-        sc = [{'op': 'accessor', 'which': 'integer', 'value': {'t': 'num', 'm': w['first'], 's': 0}},
+        sc = [{'op': 'accessor', 'which': 'integer', 'value': {'t': 'num', 'm': w['first'], 's': w.get('first_s', 0)}},
               {'op': 'accessor', 'which': 'integer', 'value': {'t': 'num', 'm': w['m'], 's': w['s']}}]
         od = ctx.native(sc, 'dev')[-1]
         m, s_ = int(w['m']), w['s']
